@@ -32,6 +32,8 @@ def ast_node(P, cls, tag, **fields):
 
 def expr_of(P, node, what):
     """The expression safe_get_* builds from an ast node: None (failure) or an opaque value determined by the node."""
+    if isinstance(node, SUnion):
+        node = P.choose(node)
     if node is None:
         return None
     g = z3.Function(f"{what}_fails", IntS, BoolS)(node.ident)
@@ -88,3 +90,239 @@ def mk_visitor(P, cur_kinds=("Module", "Class"), tag="current"):
         P.opaque_hooks["_griffe.expressions:" + fn] = P.opaque_hooks["_griffe.agents.visitor:" + fn]
     P.ghost["events"] = ev
     return v, cur, ev, dict(G0=G0, HAS=HAS, parent=parent)
+
+
+# --------------------------------------------------------------------------- handle_function fixture and obligations (shared by C01 and C02)
+from pyvc.api import sym_seq, outcome, call  # noqa: E402
+from pyvc import models  # noqa: E402
+from pyvc.interp import PyExc  # noqa: E402
+
+DPATH = z3.Function("DECORATOR_PATH", IntS, StrS)
+OVL_UPTO = z3.Function("OVERLOAD_AMONG_FIRST", IntS, BoolS)
+TYPING_OVERLOAD = ("typing.overload", "typing_extensions.overload")
+
+
+def handle_function_driver(P, prop):
+    """Runs the real Visitor.handle_function on a symbolic function definition and emits the obligations of `prop` (C01: spans, flags, events;
+    C02: overload / accessor branches, parameters)."""
+    v, cur, ev, info = mk_visitor(P)
+    G0 = info["G0"]
+    name = P.fresh_str("function_name")
+    DEC = z3.Function("DECORATOR_NODE", IntS, IntS)
+    DLN = z3.Function("DECORATOR_LINENO", IntS, IntS)
+
+    def mk_dec(i):
+        return SObj("ast.expr", {"lineno": SInt(DLN(zint(i))), "end_lineno": SInt(DLN(zint(i))), "index": SInt(zint(i))}, ident=DEC(zint(i)), frozen=True)
+    decorator_list = sym_seq(P, "decorator_list", mk_dec) if prop != "C02-params" else []
+    nd = zint(P.seq_len(decorator_list))
+    returns = opt(P, "returns_node", lambda: ast_node(P, "ast.Name", "returns"))
+    args = SObj("ast.arguments", {}, ident=z3.Int("arguments_id"), frozen=True)
+    body = [SObj("ast.stmt", {}, ident=z3.Int("body0_id"), frozen=True)]
+    node = ast_node(P, "ast.FunctionDef", "fdef", name=name, decorator_list=decorator_list, args=args, returns=returns, body=body)
+    # expression of decorator i fails or is an opaque expression; the Decorator object exposes its callable path
+    def new_decorator(P_, a, k):
+        val = a[0]
+        if isinstance(val, SUnion):
+            val = P_.choose(val)
+        dn = val.fields["node"]
+        return SObj("Decorator", {"value": val, "lineno": k.get("lineno"), "endlineno": k.get("endlineno"), "callable_path": SStr(DPATH(dn.ident)), "node": dn}, ident=P_.new_ident())
+    P.opaque_hooks["new:Decorator"] = new_decorator
+    fails = z3.Function("expression_fails", IntS, BoolS)
+
+    def is_ovl(i):
+        d = DEC(i)
+        return z3.And(z3.Not(fails(d)), z3.Or(*[DPATH(d) == z3.StringVal(t) for t in TYPING_OVERLOAD]))
+    # decorator-derived labels: an abstract set determined by the decorator list (decorators_to_labels is proved against the tables separately)
+    IN_LABELS = z3.Function("IN_DECORATOR_LABELS", StrS, BoolS)
+
+    def d2l(P_, a, k):
+        seq = SSeq(P_.fresh_int("n_decorator_labels"), lambda i: SStr(z3.Function("DECORATOR_LABEL", IntS, StrS)(zint(i))), tag="decorator_labels",
+                   memfn=lambda P__, item: IN_LABELS(zstr(item)))
+        P_.assume(zint(seq.len) >= 0)
+        return models.SymSet(items=[], parts=[seq])
+    P.opaque_hooks[VS + "decorators_to_labels"] = d2l
+    # parameters: get_parameters by contract (C02.get_parameters): a sequence of (name, annotation node | None, kind, default node | str | None)
+    PN = z3.Function("PARAM_NAME", IntS, StrS)
+    PK = z3.Function("PARAM_KIND", IntS, IntS)
+    PD = z3.Function("PARAM_DEFAULT_FORM", IntS, IntS)   # 0 none, 1 str ("()" / "{}"), 2 ast node
+    kinds = P.enum_members("ParameterKind")
+
+    def mk_param(i):
+        zi = zint(i)
+        P.assume(z3.And(PK(zi) >= 0, PK(zi) < len(kinds), PD(zi) >= 0, PD(zi) <= 2))
+        ann = SUnion([(z3.Function("PARAM_ANN_NONE", IntS, BoolS)(zi), None),
+                      (z3.Not(z3.Function("PARAM_ANN_NONE", IntS, BoolS)(zi)), SObj("ast.expr", {}, ident=z3.Function("PARAM_ANN", IntS, IntS)(zi), frozen=True))])
+        default = SUnion([(PD(zi) == 0, None), (PD(zi) == 1, SStr(z3.Function("PARAM_DEFAULT_STR", IntS, StrS)(zi))),
+                          (PD(zi) == 2, SObj("ast.expr", {}, ident=z3.Function("PARAM_DEFAULT", IntS, IntS)(zi), frozen=True))])
+        return (SStr(PN(zi)), ann, SEnum("ParameterKind", PK(zi)), default)
+    # C01's obligations do not concern the parameters: the definition has none there (C02 proves the parameter clauses for arbitrary lists)
+    params = sym_seq(P, "ast_parameters", mk_param) if prop == "C02-params" else []
+    for mod in ("_griffe.agents.visitor", "_griffe.agents.nodes.parameters"):
+        P.opaque_hooks[mod + ":get_parameters"] = lambda P_, a, k: params
+    # property accessor detection by contract
+    acc = z3.Int("accessor_kind")    # 0 none, 1 setter, 2 deleter
+    P.assume(z3.And(acc >= 0, acc <= 2))
+    if prop == "C02-params":
+        P.assume(acc == 0)
+    P.assume(z3.Implies(acc != 0, info["HAS"](name.z)))     # contract of get_base_property: an accessor is only reported for an existing property member
+    P.opaque_hooks[VS + "get_base_property"] = lambda P_, a, k: SUnion([(acc == 0, None), (acc == 1, "setter"), (acc == 2, "deleter")])
+    # pending overloads of the current scope: name -> mutable list
+    pending = {}
+
+    def ov_get(P_, o, key):
+        kk = zstr(key).sexpr()
+        if kk not in pending:
+            n0 = P_.fresh_int("n_pending_overloads")
+            P_.assume(n0.z >= 0)
+            pending[kk] = MList(SSeq(n0, lambda i: SObj("Function", {"pending_index": SInt(zint(i))}, ident=z3.Function("PENDING_OVERLOAD", IntS, IntS)(zint(i))), tag="pending"))
+            pending[kk].n0 = n0
+        return pending[kk]
+    cur.fields["overloads"] = SObj("OverloadsMap", {}, ident=z3.Int("overloads_map_id"), frozen=True)
+    P.attr_hooks[("OverloadsMap", "__getitem__")] = ov_get
+    P.attr_hooks[("OverloadsMap", "__delitem__")] = lambda P_, o, key: ev.append(("del_overloads", key))
+    visits = []
+    P.opaque_hooks[VS + "generic_visit"] = lambda P_, a, k: visits.append(v.fields["current"])
+    # labels argument: absent, or a fresh non-empty set (the caller's ownership obligation is lemma `labels_argument_is_fresh`)
+    lab_mode = z3.Int("labels_argument")
+    P.assume(z3.And(lab_mode >= 0, lab_mode <= 1))
+    labels_arg = None if (prop == "C02-params" or not P.branch(lab_mode == 1)) else {"async"}
+    q = VS + "handle_function"
+
+    def inv(P_, L, pre):
+        i = zint(L["__idecorators"])
+        return zbool(L.overload) == OVL_UPTO(i)
+
+    def body_prefix_axiom(P_, before, after):
+        pass
+
+    def hint_decorators(P_, nm):
+        n = P_.fresh_int(nm + "_len")
+        P_.assume(n.z >= 0)
+        return SSeq(n, lambda i: SObj("Decorator", {"callable_path": SStr(z3.Function("KEPT_DECORATOR_PATH", IntS, StrS)(zint(i)))}, ident=z3.Function("KEPT_DECORATOR", IntS, IntS)(zint(i))), tag=nm)
+    # defining equations of the fold OVL_UPTO, instantiated where the proof needs them (loop index and 0)
+    P.assume(z3.Not(OVL_UPTO(0)))
+    kidx = z3.Int("__k_fold")
+    P.assume(z3.ForAll([kidx], z3.Implies(kidx >= 0, OVL_UPTO(kidx + 1) == z3.Or(OVL_UPTO(kidx), is_ovl(kidx))))) if False else None
+
+    def post_body(P_, before, after):
+        pass
+    spec = dict(mode="inv", name="decorators", inv=inv, no_break=True,
+                hints={"decorators": hint_decorators, "overload": lambda P_, nm: P_.fresh_bool(nm), "decorator_node": lambda P_, nm: None,
+                       "decorator_value": lambda P_, nm: None, "decorator": lambda P_, nm: None})
+    P.loop_specs[(q, 0)] = spec
+    # the step equation at the (symbolic) loop index is added when the index is known: wrap inv to assume it
+    def inv_with_step(P_, L, pre):
+        i = zint(L["__idecorators"])
+        P_.assume(z3.Implies(i >= 0, OVL_UPTO(i + 1) == z3.Or(OVL_UPTO(i), is_ovl(i))))
+        P_.assume(z3.Implies(i >= 1, OVL_UPTO(i) == z3.Or(OVL_UPTO(i - 1), is_ovl(i - 1))))
+        return inv(P_, L, pre)
+    spec["inv"] = inv_with_step
+    # safe_get_expression on decorator i fails iff fails(DEC(i))
+    P.opaque_hooks["_griffe.agents.visitor:safe_get_expression"] = lambda P_, a, k: _expr_or_none(P_, a[0] if a else k.get("node"), fails)
+    kind_, res = outcome(P, lambda: call(P, q, v, node, labels_arg) if labels_arg is not None else call(P, q, v, node))
+    P.witness.update(n_decorators=P.seq_len(decorator_list), accessor=SInt(acc), already_guarded=SBool(G0))
+    P.expects["clause"] = "handle_function"
+    if kind_ == "raise":
+        P.prove("never_raises", False, exc=P.resolve_cls(res))
+        return
+    ovl = OVL_UPTO(nd)
+    kinds_ev = [(e[1] if e[0] == "ext" else e[0]) for e in ev]
+    sets = [e for e in ev if e[0] == "set_member"]
+    is_prop = kinds_ev[-1:] == ["on_attribute_instance"]
+    if is_prop:
+        # property: an attribute member named after the function
+        if prop == "C01":
+            P.prove("property.placed_then_announced", kinds_ev == ["on_node", "on_function_node", "set_member", "on_instance", "on_attribute_instance"], kinds=str(kinds_ev))
+            if len(sets) == 1:
+                obj = sets[0][3]
+                P.prove("property.is_an_attribute_named_after_the_function", P.resolve_cls(obj) == "Attribute" and obj.fields["name"] is name)
+                P.prove("property.span_and_runtime", obj.fields["lineno"] is node.fields["lineno"] and obj.fields["endlineno"] is node.fields["end_lineno"]
+                        and z3.is_true(z3.simplify(zbool(obj.fields["runtime"]) == z3.Not(G0))))
+        P.cover("handle_function.property")
+        return
+    inst = [e for e in ev if e[0] == "ext" and e[1] == "on_instance"]
+    fn = inst[0][2].get("obj") if inst else None
+    if prop == "C01":
+        P.prove("function.announced_once_after_being_placed", kinds_ev[:2] == ["on_node", "on_function_node"] and kinds_ev[-2:] == ["on_instance", "on_function_instance"]
+                and kinds_ev.count("on_instance") == 1 and ("set_member" not in kinds_ev or kinds_ev.index("set_member") < kinds_ev.index("on_instance")), kinds=str(kinds_ev))
+        if fn is not None:
+            first_ln = z3.If(nd > 0, DLN(0), zint(node.fields["lineno"]))
+            P.prove("function.span_starts_at_the_first_decorator", zint(fn.fields["lineno"]) == first_ln)
+            P.prove("function.span_ends_with_the_definition", fn.fields["endlineno"] is node.fields["end_lineno"])
+            P.prove("function.runtime_flag_is_not_type_guarded", zbool(fn.fields["runtime"]) == z3.Not(G0))
+            P.prove("function.named_after_the_definition", fn.fields["name"] is name)
+            P.prove("function.scope_restored", v.fields["current"] is cur)
+    if prop == "C02-branches" and fn is not None:
+        appended = [kk for kk, ml in pending.items() if not isinstance(ml.seq, SSeq) or ml.seq is not None and getattr(ml, "n0", None) is not None and
+                    not (isinstance(P.seq_len(ml.seq), SInt) and P.seq_len(ml.seq).z.eq(ml.n0.z))]
+        was_appended = any(_last_is(P, ml, fn) for ml in pending.values())
+        P.prove("overload_stub_is_queued_iff_some_decorator_is_typing_overload", z3.BoolVal(was_appended) == ovl, queued=was_appended)
+        P.prove("overload_stub_never_replaces_a_member", z3.Implies(ovl, z3.BoolVal(len(sets) == 0)))
+        setter_written = [(o, nm) for (o, nm) in P.ghost.get("writes", []) if nm in ("setter", "deleter")]
+        P.prove("accessor_attaches_to_its_property_without_replacing_it", z3.Implies(z3.And(z3.Not(ovl), acc != 0), z3.BoolVal(len(sets) == 0 and len(setter_written) == 1)),
+                sets=len(sets), written=len(setter_written))
+        if setter_written:
+            P.prove("accessor_kind_matches", z3.And(z3.Implies(acc == 1, z3.BoolVal(setter_written[0][1] == "setter")), z3.Implies(acc == 2, z3.BoolVal(setter_written[0][1] == "deleter"))))
+        P.prove("plain_definition_is_placed_under_its_name", z3.Implies(z3.And(z3.Not(ovl), acc == 0), z3.BoolVal(len(sets) == 1 and sets[0][1] is cur and sets[0][2] is name and sets[0][3] is fn)))
+        # pending overloads move to the implementation, in order (the very list), and the queue entry is deleted
+        if len(sets) == 1 and pending:
+            ml = next(iter(pending.values()))
+            nonempty = zint(P.seq_len(ml.seq)) > 0
+            dels = [e for e in ev if e[0] == "del_overloads"]
+            fo = fn.fields.get("overloads")
+            P.prove("queued_overloads_move_to_the_implementation_in_order", z3.Implies(nonempty, z3.BoolVal(fo is ml and len(dels) == 1)), moved=fo is ml, dels=len(dels))
+    if prop == "C02-params" and fn is not None:
+        # parameters are the element-wise image of get_parameters
+        pr = fn.fields.get("parameters")
+        plist = P.to_seq(P.getattr(pr, "_params")) if isinstance(pr, SObj) else None
+        if plist is not None:
+            P.prove("as_many_parameters_as_the_definition", zint(P.seq_len(plist)) == zint(P.seq_len(params)))
+            j = z3.Int("j_param")
+            if P.branch(z3.And(j >= 0, j < zint(P.seq_len(params)))):
+                pj = P.seq_at(plist, SInt(j))
+                if isinstance(pj, SUnion):
+                    pj = P.choose(pj)
+                P.prove("parameter.name", zstr(pj.fields["name"]) == PN(j))
+                P.prove("parameter.kind", P.eq(pj.fields["kind"], SEnum("ParameterKind", PK(j))))
+                dflt = pj.fields["default"]
+                P.prove("parameter.has_default_iff_the_definition_gives_one", zbool(P.identical(dflt, None)) == z3.Or(PD(j) == 0, z3.And(PD(j) == 2, fails(z3.Function("PARAM_DEFAULT", IntS, IntS)(j)))))
+    P.cover("handle_function.function")
+
+
+def _expr_or_none(P, node, fails):
+    if isinstance(node, SUnion):
+        node = P.choose(node)
+    if node is None:
+        return None
+    g = fails(node.ident)
+    return SUnion([(g, None), (z3.Not(g), SObj("ExprValue", {"node": node}, ident=z3.Function("expression_of", IntS, IntS)(node.ident), frozen=True))])
+
+
+def _last_is(P, ml, fn):
+    seq = ml.seq
+    if isinstance(seq, (list, tuple)):
+        return bool(seq) and seq[-1] is fn
+    n = P.seq_len(seq)
+    try:
+        last = P.seq_at(seq, SInt(zint(n) - 1))
+    except Exception:  # noqa: BLE001
+        return False
+    return last is fn
+
+
+def ownership_lemma(idx):
+    """handle_function updates its `labels` argument in place, so every call site must hand over a fresh set (ownership precondition, decided on the AST)."""
+    import ast as _ast
+    vm = idx.module("_griffe.agents.visitor")
+    sites, bad_sites = 0, []
+    for n in _ast.walk(vm.tree):
+        if isinstance(n, _ast.Call) and isinstance(n.func, _ast.Attribute) and n.func.attr == "handle_function":
+            sites += 1
+            lab = next((k.value for k in n.keywords if k.arg == "labels"), n.args[1] if len(n.args) > 1 else None)
+            fresh = lab is None or (isinstance(lab, _ast.Constant) and lab.value is None) or isinstance(lab, (_ast.Set, _ast.SetComp)) or \
+                (isinstance(lab, _ast.Call) and isinstance(lab.func, _ast.Name) and lab.func.id in ("set", "frozenset"))
+            if not fresh:
+                bad_sites.append(f"line {n.lineno}: labels={_ast.unparse(lab)}")
+    return {"name": "labels_argument_is_fresh_at_every_call_site", "ok": sites > 0 and not bad_sites,
+            "detail": f"{sites} call sites of handle_function pass no labels, None, or a set display / constructor (the callee mutates the set it is given)"
+                      + (f"; shared objects passed at {bad_sites}" if bad_sites else "")}
